@@ -178,6 +178,7 @@ def worker_main(argv):
     soft = getattr(mod, 'CASE_DEADLINE', 20)
     budget = float(os.environ.get('VERIF_WORKER_BUDGET', '0')) or None
     start_idx = int(os.environ.get('VERIF_START_IDX', '0'))
+    stop_n = int(os.environ.get('VERIF_STOP_ON_VIOLATION', '0'))
     for idx, case in enumerate(mod.cases(ctx)):
         if idx < start_idx:
             continue
@@ -198,6 +199,15 @@ def worker_main(argv):
             ctx.timeouts.append(jsonable(case))
             if hasattr(mod, 'after_timeout'):
                 mod.after_timeout(ctx)
+        if stop_n:
+            # used by the mutant tools only (never by a registered command): a tree that is already shown to violate need not be explored further
+            if sum(1 for v in ctx.violations if v['finding'] is None) >= stop_n:
+                ctx.notes.append('stopped after %d unlisted violations (VERIF_STOP_ON_VIOLATION)' % stop_n)
+                open(os.path.join(sandbox_dir, '_stop'), 'w').close()
+                break
+            if idx % 16 == 0 and os.path.exists(os.path.join(sandbox_dir, '_stop')):
+                ctx.notes.append('stopped: another worker met a violation (VERIF_STOP_ON_VIOLATION)')
+                break
         if budget and time.time() - t0 > budget:
             ctx.notes.append('worker budget %.0fs reached after %d cases' % (budget, idx + 1))
             ctx.counters['budget_stops'] += 1
@@ -274,8 +284,10 @@ def write_evidence(mod, cid, tier, seed, m, wall, nviol, extra=None):
         cov.update(extra)
     ev = {'property_id': cid, 'tier': tier, 'seed': seed, 'level': 'exploration', 'coverage': cov,
           'assumptions': list(mod.ASSUMPTIONS), 'wall_s': round(wall, 2), 'violations': nviol}
-    os.makedirs(os.path.join(VERIF, 'evidence'), exist_ok=True)
-    with open(os.path.join(VERIF, 'evidence', cid + '.json'), 'w') as f:
+    # a run pointed at a scratch tree (VERIF_REPO, mutant tools) must not overwrite the evidence of the repository's own tree
+    edir = os.path.join(VERIF, 'evidence') if os.environ.get('VERIF_REPO', '/repo') == '/repo' else os.path.join(VERIF, 'replays', 'scratch-evidence')
+    os.makedirs(edir, exist_ok=True)
+    with open(os.path.join(edir, cid + '.json'), 'w') as f:
         json.dump(ev, f, indent=1, sort_keys=True, default=str)
         f.write('\n')
 
